@@ -563,9 +563,15 @@ class H2Origin(_Endpoint):
                     self.flush()
                 return
             last = (i == len(chunks) - 1) and not trailers and rst is None and not r.get("end_with_empty_data")
-            if len(c) > self.conn.local_flow_control_window(sid):
+            # optional per-chunk padding (None / absent = DATA frame without the PADDED flag; 0..255 = PADDED)
+            pads = r.get("pads")
+            pad = pads[i] if pads and i < len(pads) else None
+            if len(c) + (0 if pad is None else int(pad) + 1) > self.conn.local_flow_control_window(sid):
                 raise PeerHarnessError("origin response chunk exceeds the proxy's flow-control window")
-            if not self.send_guard(self.conn.send_data, sid, c, end_stream=last):
+            if pad is None:
+                if not self.send_guard(self.conn.send_data, sid, c, end_stream=last):
+                    return
+            elif not self.send_guard(self.conn.send_data, sid, c, end_stream=last, pad_length=int(pad)):
                 return
             self.note("resp_data", rec["order"], len(c), last)
             self.flush()
@@ -738,9 +744,14 @@ class H2Client(_Endpoint):
                 self.skipped_sends += 1
                 rec["skipped"] += 1
                 return
-            if len(data) > window or len(data) > c.max_outbound_frame_size:
+            # optional per-chunk padding (None / absent = DATA frame without the PADDED flag; 0..255 = PADDED)
+            pads = st.get("pads")
+            pad = pads[fr["i"]] if pads and fr["i"] < len(pads) else None
+            extra = 0 if pad is None else int(pad) + 1
+            kw = {} if pad is None else {"pad_length": int(pad)}
+            if len(data) + extra > window or len(data) + extra > c.max_outbound_frame_size:
                 raise PeerHarnessError("client request chunk exceeds the proxy's flow-control window / frame size")
-            if self.send_guard(c.send_data, sid, data, end_stream=bool(fr.get("end"))):
+            if self.send_guard(c.send_data, sid, data, end_stream=bool(fr.get("end")), **kw):
                 rec["chunks"].append(fr["i"])
                 if fr.get("end"):
                     rec["ended"] = True
